@@ -23,7 +23,7 @@ from ..tunnelsim import CELL_HDR, World, parse_cell, try_decrypt
 
 PID = "C04"
 LEVEL = "exploration"
-RULE = ("Hypothesis-drawn cases (hops 1..3, kind in data-out / data-in / ping / speed-test, payload length 0..1400 "
+RULE = ("[plus: create-e2e offered to an introduction point before/after it dropped the exit entry; a circuit member asking the originator to join under the originator's own circuit id; e2e destination field drawn; anon_out exit ownership] Hypothesis-drawn cases (hops 1..3, kind in data-out / data-in / ping / speed-test, payload length 0..1400 "
         "boundary-biased, BitTorrent- or IPv8-shaped payload, IPv4/IPv6 destination, fault in none / flip(link, byte, "
         "mask) / splice body from a 2nd circuit / swap circuit id to the 2nd circuit's / forged cell by an outsider with "
         "own keys) plus hidden-service (e2e) circuits of 1-2 hops per side with data in either direction and optional "
